@@ -74,6 +74,10 @@ func ZZ_C15_RoundTrip() {
 	any, _ := types.PackEvent(ev)
 	k.setExternalEventVoteRecord(ctx, chain, ev.EventNonce, ev.Hash(), &types.ExternalEventVoteRecord{Event: any, Votes: []string{oper.String()}})
 	k.setLastEventNonceByValidator(ctx, chain, oper, ev.EventNonce)
+	// a second validator that lags behind, is level with, or is ahead of the last observed event: any stored nonce
+	oper2 := sdk.ValAddress(vrt.Bytes("oper2", 20))
+	vrt.Assume(!oper2.Equals(oper))
+	k.setLastEventNonceByValidator(ctx, chain, oper2, vrt.Uint64Below("valNonce2", 1<<56))
 	// counters and records
 	k.setLastOutgoingBatchNonce(ctx, chain, batchNonce)
 	zzSetLastID(a, chain, vrt.Uint64Below("lastID", 1<<56))
